@@ -103,6 +103,29 @@ def elig_shard(asm, acc, sh, deadline):
             else:
                 judge_line(acc, h, e, batch[-1][2], o.out, {'sp': sp, 'alone': True})
                 acc['ctr']['alone'] += 1
+        if (sh['tier'] == 'thorough' or h % 8 == sh['seed'] % 8) and ('imm' in e or 'shamt' in e):
+            # the same instruction with its immediate / shift amount given through a named constant (not label-dependent either),
+            # assembled as its own program: earlier compress calls of this process defined other constants
+            name = 'KC%d' % (h % 7)
+            val = e.get('imm', e.get('shamt'))
+            e2 = dict(e)
+            line2 = text32(e, sp)
+            key = 'imm' if 'imm' in e else 'shamt'
+            # re-render with the constant name in place of the value
+            import re
+            spelled = sint(val if not (e['name'] == 'lui' and val < 0 and sp % 2) else val + (1 << 20), sp)
+            if line2.count(spelled) >= 1:
+                idx = line2.rfind(spelled)
+                line2 = line2[:idx] + name + line2[idx + len(spelled):]
+                src = '%s = %d\n%s\n' % (name, val, line2)
+                lay2 = monitors.layout(asm, src.splitlines(), compress=True)
+                acc['n'] += 1
+                if lay2.obs.ok and lay2.chunks is not None:
+                    acc['ctr']['constant_operand_cases'] += 1
+                    judge_line(acc, h, e, src.strip().replace('\n', ' ; '), lay2.chunks[1][1], {'sp': sp, 'alone': 'const'})
+                elif not lay2.obs.ok:
+                    core.add_viol(acc, 'the expansion of legal halfword %#06x with a constant operand (%s) is refused with -c: %s' % (h, src.strip().replace('\n', ' ; '), lay2.obs.exc['msg']),
+                                  {'kind': 'elig', 'h': h, 'sp': sp, 'alone': 'const'}, {})
         if len(batch) >= 400:
             flush(asm, acc, batch)
             batch = []
@@ -207,6 +230,8 @@ def gates(acc, tier):
         g.append('reference model counts %d legal halfwords, expected 28461' % acc['ctr']['class:legal'])
     if len(acc['seen'].get('rvc_results', ())) < 27 and not acc['nviol']:
         g.append('only %d/27 RVC mnemonics observed as compression results' % len(acc['seen'].get('rvc_results', ())))
+    if acc['ctr']['constant_operand_cases'] == 0:
+        g.append('no eligibility case with a constant-valued operand ran')
     if acc['ctr']['mono_pairs'] < 0.5 * max(1, acc['ctr']['mono_pairs'] + acc['ctr']['mono_refused']):
         g.append('most monotonicity programs were refused')
     return g
